@@ -342,7 +342,10 @@ pub fn make_context(root: &Path) -> BuildContext<HB> {
 
 pub fn exec_d_source(side_dir: &Path, name: &str, data: &[u8]) -> PathBuf {
     std::fs::create_dir_all(side_dir).unwrap();
-    let p = side_dir.join(format!("src-{name}-{:016x}", crate::core::hash_of(data)));
-    std::fs::write(&p, data).unwrap();
+    // one source path per program name, REWRITTEN IN PLACE for every new content (a buildpack rendering a scratch file
+    // per layer): the program in an earlier layer must be a copy, not another name for this inode
+    let p = side_dir.join(format!("src-{name}"));
+    let mut f = std::fs::OpenOptions::new().write(true).create(true).truncate(true).open(&p).unwrap();
+    std::io::Write::write_all(&mut f, data).unwrap();
     p
 }
